@@ -1,6 +1,6 @@
 package main
 
-// c19.go — C19, the conversion clauses only (the numeric clauses quantify over run-time values: not decided).
+// c19.go — C19: the conversion clauses (R1–R3); the numeric clauses are decided in c19num.go (R4, R5).
 
 import (
 	"go/ast"
@@ -15,9 +15,10 @@ func init() {
 			Level: "other",
 			Explanation: "Decides the conversion clauses of the property, which are visible in the shape of the three conversion built-ins: (R1) converting a value to the type it already has returns it unchanged — bool() and number() return their argument itself under the test that the own alternative is present, string() returns NewString of the argument's display form, which for strings is the string verbatim (C04.R4); " +
 				"(R2) a string that is not a number / boolean is an error — in bool() and number() every nil-error return reached under the test that the String alternative is present returns the first result of strconv.ParseBool / strconv.ParseFloat(…, 64) applied to the string exactly as stored, and the parse error of that very call is entailed nil there (so a failed parse cannot yield a value); " +
-				"(R3) the round trips number(string(x)) = x and bool(string(b)) = b, by composition: string() prints through Value.ToString for every alternative, whose number formatting is the shortest representation that round-trips and whose boolean constants are True/False (C04.R4, re-evaluated here), and number()/bool() parse that text verbatim with ParseFloat(…, 64) / ParseBool, which invert those formats (A4).",
-			NotDecided:  "all numeric clauses (floor, ceil, inc, dec, integer, decimal, round, round_places): they constrain computed floating-point values over all doubles, which no rule over the shape of the code bounds — e.g. math.Floor(x+0.5) instead of math.Round(x) has the same shape and differs on 0.49999999999999994; number(string(x)) = x is decided only as the composition of the two formats (A4), not by evaluating them",
-			Assumptions: []string{"A1", "A4 (strconv.FormatFloat(x,'g'/'f',-1,64), fmt.Sprint(float64) and strconv.Itoa print text that strconv.ParseFloat(…,64) maps back to x for |x| < 2^52; strconv.ParseBool maps \"True\" to true and \"False\" to false)"},
+				"(R3) the round trips number(string(x)) = x and bool(string(b)) = b, by composition: string() prints through Value.ToString for every alternative, whose number formatting is the shortest representation that round-trips and whose boolean constants are True/False (C04.R4, re-evaluated here), and number()/bool() parse that text verbatim with ParseFloat(…, 64) / ParseBool, which invert those formats (A4); " +
+				"(R4) the numeric clauses of floor, ceil, inc, dec, integer, decimal and round, by abstract interpretation of the bodies over the nine classes of x = k + t (sign of x × t ∈ {0}, (0,½), {½}, (½,1)) with affine forms a·k+b·t+c and floating-point exactness tracking: a clause is reported as holding only when it holds for every k and t of every class and every step is exact for |x| < 2^52, i.e. for the computed doubles; (R5) round_places with the symbol P = 10^n for n = 0..8 (real-number model) and exactly for n = 0.",
+			NotDecided:  "numeric built-ins whose body leaves the interpreted domain (undecided, exit 2 — never a pass); round_places is decided in the real-number model (and exactly for n = 0): the rounding error of x·10^n near or above 2^53 is inherent to the formula and not modelled (the unchanged library is off by more than half a unit for e.g. round_places(16794321.033155564, 8)); which strings strconv.ParseFloat/ParseBool accept as numbers/booleans (nan, inf, 0x1p4, t, 1) is taken as the definition (A4); number(string(x)) = x is decided only as the composition of the two formats (A4), not by evaluating them",
+			Assumptions: []string{"A1", "A7 (int is 64 bits wide; float64→int conversions of |x| < 2^52 truncate)", "A4 (math.Floor/Ceil/Trunc/Round/Mod/Modf as documented; strconv.FormatFloat(x,'g'/'f',-1,64), fmt.Sprint(float64) and strconv.Itoa print text that strconv.ParseFloat(…,64) maps back to x for |x| < 2^52; strconv.ParseBool maps \"True\" to true and \"False\" to false)"},
 			Trusted:     []string{"go/types", "go/packages loader"},
 		},
 		run: checkC19,
